@@ -13,6 +13,5 @@ PROP = dict(
          "tryMarkDirty, before the first byte is written) until the driver releases it; Bitfield, Complete, BytesDownloaded after every "
          "step and the cache file at the end; non-trivial = a concurrent-writer conflict or repeat and a rejected corrupt piece",
     assumptions=["writers are held only at the PieceReader boundary; the steps after it (write, checksum, status byte, count, move) run "
-                 "uninterrupted per writer on the real code (the design model checks the same grain)",
-                 "negative piece indices (a panic in getPiece, see C14) are not driven here"],
+                 "uninterrupted per writer on the real code (the design model checks the same grain)"],
 )
